@@ -312,7 +312,9 @@ def run_job(job, scratch, clause_text=None):
                                                'unsatisfiable or the call never returns' % canary)
         return job
     bad = [o for o in job.obligations if o['status'] not in ('SUCCESS', 'FAILURE')]
-    if bad:
+    # CBMC 6 reports obligations behind a failed one on the same path as UNKNOWN: with a FAILURE present
+    # the verdict is the failure; UNKNOWN without any failure is undecided
+    if bad and not any(o['status'] == 'FAILURE' for o in job.obligations):
         job.status, job.reason = 'undecided', 'obligation %s has status %s' % (bad[0]['id'], bad[0]['status'])
         return job
     if len(job.obligations) < job.min_obligations:
@@ -344,9 +346,15 @@ def get_trace(job):
                 lhs = step.get('lhs', '')
                 v = step.get('value', {})
                 fn = step.get('sourceLocation', {}).get('function', '')
-                if 'data' in v and (fn.startswith('h_') or lhs.startswith('cvin_')):
-                    vals.setdefault(lhs, v['data'])
-                    vals[lhs] = v['data']
+                if 'data' in v and (fn.startswith('h_') or lhs.startswith('cvin_')) and not lhs.startswith('__'):
+                    val = v['data']
+                    if v.get('name') == 'integer' and 'binary' in v:
+                        b = v['binary']
+                        val = int(b, 2)
+                        t = v.get('type', '')
+                        if b[0] == '1' and not ('unsigned' in t or t in ('size_t', '__CPROVER_size_t', '_Bool')):
+                            val -= 1 << len(b)
+                    vals[lhs] = val
         traces[r.get('property', '')] = vals
     return traces
 
@@ -409,7 +417,8 @@ def resolve_symbol(syms, pattern):
 
 def dfcc(inp, out, harness, enforce, replace=(), cwd=None, loop_contracts=False):
     """enforce: (symbol, contract) ; replace: list of (symbol, contract)."""
-    cmd = ['goto-instrument', '--dfcc', harness, '--enforce-contract', '%s/%s' % enforce]
+    cmd = ['goto-instrument', '--dfcc', harness, '--enforce-contract',
+           enforce[0] if enforce[0] == enforce[1] else '%s/%s' % enforce]
     for s, c in replace:
         cmd += ['--replace-call-with-contract', '%s/%s' % (s, c)]
     if loop_contracts:
